@@ -365,7 +365,7 @@ impl Property for C03 {
                 },
                 Under::Glob { shape, glob } => {
                     let expr = full_glob(shape, glob, "");
-                    if starts_rooting_expr(&strip_flags(&expr)) {
+                    if starts_rooting_expr(&strip_flags(&expr)) || has_sep_class(&expr) {
                         return Ok(None);
                     }
                     let text = render_text(&expr);
